@@ -203,6 +203,28 @@ func ellipseCase(o *out.W, i int, r *rng.R) {
 	desc := map[string]interface{}{"arc": fmt.Sprintf("M%g %gA%g %g %g %v %v %g %g", start.X, start.Y, rx, ry, phi*180/math.Pi, large, sweep, end.X, end.Y),
 		"centre": []float64{c.X, c.Y}, "cos_sin": []float64{cosphi, sinphi}, "cubics": len(bz), "panic": pmsg}
 	o.Emit(out.Case{I: i, Fam: fam, Coq: term, Desc: desc, Tags: []string{"CArcCube"}})
+	// flattenEllipticArc itself on the non-circular ellipse, for each tolerance: vertices and chords judged against the
+	// ellipse in the plane of its unit circle (Flat/Arc.v judge_ellflat)
+	if pmsg == "" && !math.IsNaN(gcx) {
+		for _, tol := range []float64{1, 0.1, 0.01, 0.001, 0.0001} {
+			var vs []P
+			var fp *canvas.Path
+			msg := safe(func() { fp = canvas.VerifFlattenEllipticArc(start, rx, ry, phi, large, sweep, end, tol) })
+			okf := msg == "" && fp != nil
+			if okf {
+				for _, c := range fp.Coords() {
+					vs = append(vs, c)
+				}
+				okf = finite(vs) && len(vs) >= 2
+			}
+			d2 := map[string]interface{}{"arc": desc["arc"], "tolerance": tol, "vertices": len(vs), "panic": msg}
+			t2 := fmt.Sprintf("CEll %s %s %s %s %s %s false nil", ell, cq.Pt(start.X, start.Y), cq.Pt(end.X, end.Y), b2s(large), b2s(sweep), cq.F(tol))
+			if okf {
+				t2 = fmt.Sprintf("CEll %s %s %s %s %s %s true %s", ell, cq.Pt(start.X, start.Y), cq.Pt(end.X, end.Y), b2s(large), b2s(sweep), cq.F(tol), pts(vs))
+			}
+			o.Emit(out.Case{I: i, Fam: fam + "-flatten", Coq: t2, Desc: d2, Tags: []string{"CEll"}})
+		}
+	}
 	// flattenEllipticArc on a non-circular ellipse is arcToCube(...).Flatten(tol): certify the flattening of each emitted cubic
 	if ok {
 		tol := rng.Pick(r, tols)
